@@ -234,3 +234,18 @@ Lemma c17_roundtrip_refuted : ~ c17_roundtrip_full.
 Proof.
   intros H. destruct c17_roundtrip_refuted_b as (A & B & C & D). apply D. apply H; assumption.
 Qed.
+
+(* allowsMultiple vs the specification, wherever the property is allowed - except Subscription Identifier in SUBSCRIBE *)
+Lemma multi_eq_spec_partial pt id : 0 <= pt < 128 -> spec_allowed pt id = true ->
+  ~ (pt = SUBSCRIBE /\ id = 11) ->                         (* exclusion F-C17g *)
+  memz id (t_multi GT) = spec_repeatable pt id.
+Proof.
+  intros Hp Ha Hex. destruct (memz id all_ids) eqn:M.
+  - apply memz_in in M. pose proof multi_eq_spec_partial_b as H. rewrite forallb_forall in H.
+    specialize (H id M). pose proof (range_forall _ 128 H pt Hp) as H1. cbv beta in H1.
+    unfold multi_check in H1. rewrite Ha in H1. cbn [negb orb] in H1.
+    apply orb_true_iff in H1 as [H1|H1]; [|apply Bool.eqb_prop; exact H1].
+    apply andb_true_iff in H1 as [A B]. apply Z.eqb_eq in A, B. exfalso. apply Hex. split; assumption.
+  - unfold all_ids, memz in M. rewrite existsb_app in M. apply orb_false_iff in M as [_ M2].
+    unfold spec_allowed in Ha. rewrite (spec_row_none id M2) in Ha. discriminate.
+Qed.
